@@ -324,3 +324,81 @@ package template
 //@   loop 0: invariant#later forall a int :: $i <= a && a < len(m.vars) ==> m.vars[a].Name == old(m.vars[a].Name)
 //@   loop 0: invariant#othermaps forall nn map[string]any :: nn != m.visibleNames ==> unchanged(nn)
 //@   assigns m.visibleNames, Var.Name
+
+// ---- C14 / C03: the strings the data model offers for argument, call, type and result lists ---------
+// Each list is the ", "-join of one piece per parameter (or result), in order, and each piece is built from
+// that parameter's own name and type string with the accessor the documentation names. What a type string
+// denotes (types.TypeString under the variable's qualifier) is not decided: tstr is an uninterpreted
+// function of the variable, and Var.TypeString is trusted to return it.
+//@ spec tstr(v Var) string
+//@ func (Var).TypeString props=C14
+//@   trusted
+//@   ensures result == tstr(v)
+//@   assigns nothing
+//@ define pname(p Param) string = p.Var.Name
+//@ define ptype(p Param) string = tstr(*p.Var)
+//@ define pellipsis(p Param) string = p.Variadic ? strings.Replace(ptype(p), "[]", "...", 1) : ptype(p)
+//@ define pcall(p Param, ellipsis bool) string = (ellipsis && p.Variadic) ? pname(p) + "..." : pname(p)
+//@ func (Param).Name props=C14
+//@   ensures result == pname(p)
+//@   assigns nothing
+//@ func (Param).TypeString props=C14
+//@   ensures result == ptype(p)
+//@   assigns nothing
+//@ func (Param).TypeStringEllipsis props=C14
+//@   ensures result == pellipsis(p)
+//@   assigns nothing
+//@ func (Param).CallName props=C14
+//@   ensures result == pcall(p, ellipsis)
+//@   assigns nothing
+//@ func (Method).ArgTypeList props=C14
+//@   returns#joined result == strings.Join(params, ", ") && len(params) == len(m.Params)
+//@   returns#pieces forall k int :: 0 <= k && k < len(m.Params) ==> params[k] == ptype(m.Params[k])
+//@   loop 0: invariant len(params) == len(m.Params) && (forall k int :: 0 <= k && k < $i ==> params[k] == ptype(m.Params[k]))
+//@   assigns nothing
+//@ func (Method).ArgTypeListEllipsis props=C14
+//@   returns#joined result == strings.Join(params, ", ") && len(params) == len(m.Params)
+//@   returns#pieces forall k int :: 0 <= k && k < len(m.Params) ==> params[k] == pellipsis(m.Params[k])
+//@   loop 0: invariant len(params) == len(m.Params) && (forall k int :: 0 <= k && k < $i ==> params[k] == pellipsis(m.Params[k]))
+//@   assigns nothing
+//@ func (Method).ReturnArgNameList props=C14
+//@   returns#joined result == strings.Join(params, ", ") && len(params) == len(m.Returns)
+//@   returns#pieces forall k int :: 0 <= k && k < len(m.Returns) ==> params[k] == pname(m.Returns[k])
+//@   loop 0: invariant len(params) == len(m.Returns) && (forall k int :: 0 <= k && k < $i ==> params[k] == pname(m.Returns[k]))
+//@   assigns nothing
+//@ func (Method).ReturnArgList props=C14
+//@   returns#joined result == strings.Join(params, ", ") && len(params) == len(m.Returns)
+//@   returns#pieces forall k int :: 0 <= k && k < len(m.Returns) ==> params[k] == pname(m.Returns[k]) + " " + ptype(m.Returns[k])
+//@   loop 0: invariant len(params) == len(m.Returns) && (forall k int :: 0 <= k && k < $i ==> params[k] == pname(m.Returns[k]) + " " + ptype(m.Returns[k]))
+//@   assigns nothing
+// Call lists: the parameters start..end' in order, where end' is end, or all parameters when end is negative
+// (the templates pass len-1 to mean "all but the last").
+//@ func (Method).argCallListSlice props=C14
+//@   requires 0 <= start && start <= len(m.Params) && end <= len(m.Params) && (end < 0 || start <= end)
+//@   let last = end < 0 ? len(m.Params) : end
+//@   returns#joined result == strings.Join(params, ", ") && len(params) == last - start
+//@   returns#pieces forall k int :: 0 <= k && k < last - start ==> params[k] == pcall(m.Params[start + k], ellipsis)
+//@   loop 0: invariant len(params) == len(paramsSlice) && (forall k int :: 0 <= k && k < $i ==> params[k] == pcall(paramsSlice[k], ellipsis))
+//@   assigns nothing
+//@ func (Method).IsVariadic props=C14
+//@   ensures result == (len(m.Params) > 0 && m.Params[len(m.Params) - 1].Variadic)
+//@   assigns nothing
+//@ define pdecl(p Param) string = p.Variadic ? fmt.Sprintf("%s ...%s", pname(p), ptype(p)[2:]) : fmt.Sprintf("%s %s", pname(p), ptype(p))
+//@ func (Param).MethodArg props=C14
+//@   requires p.Variadic ==> len(ptype(p)) >= 2
+//@   ensures result == pdecl(p)
+//@   assigns nothing
+//@ func (Param).TypeStringVariadicUnderlying props=C14
+//@   ensures result == strings.Replace(pellipsis(p), "...", "", 1)
+//@   assigns nothing
+//@ func (Method).ArgList props=C14
+//@   requires forall k int :: 0 <= k && k < len(m.Params) && m.Params[k].Variadic ==> len(ptype(m.Params[k])) >= 2
+//@   returns#joined result == strings.Join(params, ", ") && len(params) == len(m.Params)
+//@   returns#pieces forall k int :: 0 <= k && k < len(m.Params) ==> params[k] == pdecl(m.Params[k])
+//@   loop 0: invariant len(params) == len(m.Params) && (forall k int :: 0 <= k && k < $i ==> params[k] == pdecl(m.Params[k]))
+//@   assigns nothing
+//@ func (Method).ReturnArgTypeList props=C14
+//@   returns#joined result == (len(m.Returns) > 1 ? fmt.Sprintf("(%s)", strings.Join(params, ", ")) : strings.Join(params, ", ")) && len(params) == len(m.Returns)
+//@   returns#pieces forall k int :: 0 <= k && k < len(m.Returns) ==> params[k] == ptype(m.Returns[k])
+//@   loop 0: invariant len(params) == len(m.Returns) && (forall k int :: 0 <= k && k < $i ==> params[k] == ptype(m.Returns[k]))
+//@   assigns nothing
